@@ -567,7 +567,7 @@ int main(int argc, char** argv) {
       if (eq && g_cfg.nopt < 32) {
         *eq = 0;
         snprintf(g_cfg.optk[g_cfg.nopt], 32, "%s", kv);
-        g_cfg.optv[g_cfg.nopt++] = atol(eq + 1);
+        g_cfg.optv[g_cfg.nopt++] = strtol(eq + 1, nullptr, 0);
       }
     } else {
       usage();
